@@ -254,6 +254,58 @@ def error_behaviour():
     return bad, len(calls)
 
 
+def lapse_case(task):
+    """Purely spatial operators do not depend on the lapse: the same metric,
+    shift and test fields with the lapse multiplied by 1e-4, by -1, and
+    replaced by 1 give the same covariant derivatives, divergence and curl.
+    Also: an index pattern a helper does not support is refused with a
+    ValueError."""
+    desc, p, N, seed = task
+    out = {'task': [list(desc), p, N], 'bad': []}
+    try:
+        rel0, st, (X, Y, Z), inp = gc.build_core(desc, seed, p, N,
+                                                 with_T=False)
+        ref = gc.ref_chunks(st, fields.T0, X, Y, Z, ref_fn_factory(
+            seed, poly=False))
+        V, T = ref['in:V'], ref['in:T']
+
+        def spatial(rel):
+            with gc.quiet():
+                return {'covd:u': rel.s_covd(V, 'u'),
+                        'covd:dd': rel.s_covd(T, 'dd'),
+                        'div:ud': rel.s_div(T, 'ud'),
+                        'curl:dd': rel.s_curl(T, 'dd')}
+        base = spatial(rel0)
+        for name, a in (('1e-4*alpha', 1e-4 * inp['alpha']),
+                        ('-alpha', -inp['alpha']),
+                        ('alpha=1', np.ones_like(inp['alpha']))):
+            rel, _, _, _ = gc.build_core(desc, seed, p, N, with_T=False,
+                                         inputs_extra={'alpha': a})
+            for k, v in spatial(rel).items():
+                sc = max(float(np.abs(base[k]).max()), 1e-3)
+                d = float(np.abs(v - base[k]).max() / sc)
+                if not d <= 1e-9:
+                    out['bad'].append(('lapse-dependent', k, name, d))
+        for fn, args in ((rel0.s_div, (T, 'xx')), (rel0.s_curl, (T, 'uu')),
+                         (rel0.st_covd, (ref['in:U'], ref['in:dtU'], 'x')),
+                         (rel0.s_covd, (T, 'zz'))):
+            try:
+                with gc.quiet():
+                    fn(*args)
+                out['bad'].append(('unsupported-indexing-accepted',
+                                   fn.__name__, args[-1], 0.0))
+            except ValueError:
+                pass
+            except Exception as ex:      # noqa: BLE001
+                out['bad'].append(('unsupported-indexing-raises-'
+                                   + type(ex).__name__, fn.__name__,
+                                   args[-1], 0.0))
+    except Exception:      # noqa: BLE001
+        import traceback
+        out['bad'].append(('raised', traceback.format_exc()[-300:], '', 0.0))
+    return out
+
+
 def build_tasks(tier, seed):
     tasks = []
     cells = [('L0', 'S0', 'G0', 'D0'), ('L0', 'S2', 'G1', 'D0'),
@@ -279,6 +331,13 @@ def main(tier):
     run = runner.Run(PID, tier, "exploration")
     tasks = build_tasks(tier, run.seed)
     results = runner.pmap(case, tasks)
+    ltasks = [(('lattice', 'L1', 'S3', 'G2', 'D1', 0.0), 4, 16, run.seed),
+              (('lattice', 'L2', 'S2', 'G1', 'D0', 0.0), 2, 12, run.seed)]
+    for r in runner.pmap(lapse_case, ltasks, workers=2):
+        run.seen(('lapse',) + tuple(map(str, r['task'])))
+        for b in r['bad']:
+            run.violation(f"C05:{b[0]}:{b[1]}",
+                          f"{r['task']}: {b}"[:300], {'lapse': r['task']})
     worst = {}
     for t, r in zip(tasks, results):
         desc, p, Ns, seed = t
